@@ -284,6 +284,7 @@ func batchIds(bs []realBatch) [][]string {
 // ---------------------------------------------------------------------------------------------
 
 type loadRunner struct {
+	approx bool // sizes are targets (random runs read the real sizes back from storage)
 	e      *env
 	rep    *vfutil.Report
 	idOf   func(int) string
@@ -298,7 +299,7 @@ type loadRunner struct {
 
 func (lr *loadRunner) rawOf(k int) *treechangeproto.RawTreeChangeWithId {
 	c := lr.uni[k]
-	return lr.e.raw(chSpec{Id: lr.idOf(k), Prev: intsToIds(lr.idOf, c.Prev), Snap: lr.idOf(c.Snap), IsSnap: c.IsSnap, Size: c.Size * lr.unit})
+	return lr.e.raw(chSpec{Id: lr.idOf(k), Prev: intsToIds(lr.idOf, c.Prev), Snap: lr.idOf(c.Snap), IsSnap: c.IsSnap, Size: c.Size * lr.unit, Approx: lr.approx})
 }
 
 func (lr *loadRunner) viol(key, desc string) {
@@ -676,7 +677,7 @@ func TestLoadReplay(t *testing.T) {
 func runRandomLoadCase(e *env, rep *vfutil.Report, rng *rand.Rand, seed int64, p randParams) {
 	useMockBuilder()
 	prefix := e.nextPrefix()
-	lr := &loadRunner{e: e, rep: rep, unit: 1, uni: map[int]uniCh{0: {Id: 0, Snap: 0, IsSnap: true, Size: 200 + rng.Intn(100)}}}
+	lr := &loadRunner{e: e, rep: rep, unit: 1, approx: true, uni: map[int]uniCh{0: {Id: 0, Snap: 0, IsSnap: true, Size: 200 + rng.Intn(100)}}}
 	lr.idOf = func(k int) string { return fmt.Sprintf("%s%02d", prefix, k) }
 	lr.pretty = func(x string) string { return strings.ReplaceAll(x, prefix, "") }
 	lr.robj = replayObj{Kind: "random-load", Seed: seed, Params: p}
@@ -692,7 +693,7 @@ func runRandomLoadCase(e *env, rep *vfutil.Report, rng *rand.Rand, seed int64, p
 		}
 		return r
 	}
-	lr.root = e.rootRaw(lr.idOf(0), lr.uni[0].Size)
+	lr.root = e.rootRawSized(lr.idOf(0), lr.uni[0].Size, true)
 	var names []string
 	reps := map[string]*replica{}
 	// the inputs every replica received, to clone it
